@@ -2,6 +2,7 @@
 From Coq Require Import List Bool Arith.
 Import ListNotations.
 From GV Require Import gen.Gen_memo C01.Heap C01.Model C01.Lemmas.
+From GV Require gen.Gen_combine.
 
 (* One evaluation through the implementation-shaped evaluator (arrays on a heap, @memoize store, in-place `|=`
    of the n-ary or), from ANY state whose cache is coherent: the returned array holds exactly the elementwise
@@ -90,3 +91,46 @@ Print Assumptions every_class_overrides_copy.
 Theorem memo_key_plain_table : memo_key_plain = 1 /\ memo_wrapper_plain = 1.
 Proof. exact Lemmas.memo_key_plain_table. Qed.
 Print Assumptions memo_key_plain_table.
+
+(* glue.core.subset.combine_multiple AS TRANSLATED FROM THE CURRENT SOURCE (coq/gen/Gen_combine.v), run on state objects with
+   identities ([gcombine_n]): for EVERY operator and EVERY list of operands (any length) it does not raise, and the selection it
+   returns evaluates to the elementwise reduction of the masks of the operands -- the empty selection for no operand, the
+   operand's mask for one, ((m0 op m1) op m2) ... op mn otherwise; no operand is lost, repeated or reordered.  The object is the
+   left fold of the binary constructor ([ecombine]), which is also what the translated code yields on expressions; only new
+   identities are used. *)
+Theorem combine_multiple_masks :
+  forall (lm : nat -> mask) (c : ccfg) (femp : option nat) (emp : nat) (op : binop) (l : list nexpr) (k : nat),
+    exists r,
+      gcombine_n c femp emp op l k = Some r /\
+      eval lm (erase (fst r)) = combine_masks (lm emp) op (map (fun e => eval lm (erase e)) l) /\
+      erase (fst r) = ecombine emp op (map erase l) /\
+      gcombine_e emp op (map erase l) = Some (ecombine emp op (map erase l)) /\
+      k <= snd r /\
+      (forall s0 s1 rest, l = s0 :: s1 :: rest ->
+         eval lm (erase (fst r)) =
+         fold_left (map2 (bop op)) (map (fun e => eval lm (erase e)) rest)
+                   (map2 (bop op) (eval lm (erase s0)) (eval lm (erase s1)))).
+Proof. exact Lemmas.combine_multiple_masks. Qed.
+Print Assumptions combine_multiple_masks.
+
+(* The other entry points translated from the current source are the model's: SubsetState.__and__/__or__/__xor__/__invert__ build
+   And/Or/Xor/Not of (self, other) in this order; the edit modes ReplaceMode/NewMode/AndMode/OrMode/XorMode/AndNotMode are
+   [apply_mode] (expressions) and [napply_mode] (objects; so [edit_modes_sequence] and [copy_preserves_eval] speak about the
+   translated modes, which are the ones run against the code); the operators of Subset objects (Subset.__and__ -> _combine ->
+   operator.and_) and of SubsetGroup objects are the binary constructor on the held states; EditSubsetMode._combine_data makes
+   one new group holding a copy when there is no edit subset or the mode is NewMode, else applies the mode to every edit subset. *)
+Theorem generated_entry_points :
+  (forall emp a b, Gen_combine.state_and expr (eprims emp) a b = And a b /\ Gen_combine.state_or expr (eprims emp) a b = Or a b /\
+                   Gen_combine.state_xor expr (eprims emp) a b = Xor a b /\ Gen_combine.state_invert expr (eprims emp) a = Not a) /\
+  (forall emp m old new, gen_mode (eprims emp) m old new = apply_mode m old new) /\
+  (forall c m old new k, gapply_mode_n c m old new k = napply_mode c m old new k) /\
+  (forall c ops s0 k, gapply_modes_n c s0 ops k = napply_modes c s0 ops k) /\
+  (forall c a b k, gvia_n c 0 1 a (Some b) k = Some (nbin c BAnd a b k) /\ gvia_n c 0 2 a (Some b) k = Some (nbin c BOr a b k) /\
+                   gvia_n c 0 3 a (Some b) k = Some (nbin c BXor a b k) /\ gvia_n c 0 4 a None k = Some (nnot c a k) /\
+                   gvia_n c 1 1 a (Some b) k = Some (nbin c BAnd a b k) /\ gvia_n c 1 2 a (Some b) k = Some (nbin c BOr a b k) /\
+                   gvia_n c 1 3 a (Some b) k = Some (nbin c BXor a b k) /\ gvia_n c 1 4 a None k = Some (nnot c a k)) /\
+  (forall emp (es : list expr) isnew m new,
+     Gen_combine.combine_data expr (eprims emp) es isnew (gen_mode (eprims emp) m) new =
+     if (match es with [] => true | _ => false end) || isnew then [new] else map (fun s => apply_mode m s new) es).
+Proof. exact Lemmas.generated_entry_points. Qed.
+Print Assumptions generated_entry_points.
